@@ -120,3 +120,18 @@ def reduced(h):
             h.check('array-valued-cost-goes-through-reducer', 'r == rr', r=r, rr=h.call(red, fx))
         else:
             h.check('scalar-cost-passes-through', 'r == fx', r=r, fx=fx)
+
+
+@contract('C01/wrap_reducer', ['C01', 'C04'], T + 'wrap_reducer._reduce')
+def wrap_reducer(h):
+    """SetReducer(f) with a two-argument f: the array-valued cost is folded from the LEFT over exactly its own entries,
+    y = f(...f(f(c0, c1), c2)..., c_{n-1}) -- no extra start value (0.0 is not neutral for max / min / products)"""
+    n = h.choice('n', [1, 2, 3, 4])
+    R = h.fn('REDUCER', ret='real')
+    c = h.vec('cost_values', n)
+    acc = h.call(h.get(T + 'wrap_reducer'), R)
+    r = h.call(acc, c)
+    want = h.ev('c[0]', c=c)
+    for i in range(1, n):
+        want = h.call(h.fn('REDUCER', ret='real'), want, h.ev('c[i]', c=c, i=i))
+    h.check('left-fold-over-exactly-the-entries', 'r == want', r=r, want=want)
